@@ -133,7 +133,12 @@ GoToJ(v) ==
 \* ---------------------------------------------------------------- Any
 cSlash == 47
 StdPrefix == <<116,121,112,101,46,103,111,111,103,108,101,97,112,105,115,46,99,111,109,47>>   \* "type.googleapis.com/"
-LastIndexOf(s, c) == IF \E i \in 1..Len(s) : s[i] = c THEN CHOOSE i \in 1..Len(s) : s[i] = c /\ \A j \in (i + 1)..Len(s) : s[j] # c ELSE 0
+\* the last position of c in s (0: none): the definition, and the right-to-left scan that is used (MC_StructVal checks that
+\* they agree on every URL it explores)
+LastIndexOfDef(s, c) == IF \E i \in 1..Len(s) : s[i] = c THEN CHOOSE i \in 1..Len(s) : s[i] = c /\ \A j \in (i + 1)..Len(s) : s[j] # c ELSE 0
+RECURSIVE LastIndexFrom(_, _, _)
+LastIndexFrom(s, c, i) == IF i = 0 THEN 0 ELSE IF s[i] = c THEN i ELSE LastIndexFrom(s, c, i - 1)
+LastIndexOf(s, c) == LastIndexFrom(s, c, Len(s))
 AfterLastSlash(url) == SubSeq(url, LastIndexOf(url, cSlash) + 1, Len(url))
 HasSuffix(s, t) == Len(t) <= Len(s) /\ SubSeq(s, Len(s) - Len(t) + 1, Len(s)) = t
 AnyUrlOf(name) == StdPrefix \o name
